@@ -1,6 +1,27 @@
 #!/bin/sh
-# Runs every stored seeded change through the quick check of its property (optionally VERIF_SCALE=x).
+# Runs every stored seeded change through tools/seeded.sh (demo on the clean tree, demo with the change, the
+# repository's suite, the quick check of its property), ${JOBS:-3} at a time. A change whose own property's check
+# stays silent although the change violates that property only through other properties' rules lists the
+# checks that do catch it in meta.json ("also_check").
 ROOT=$(cd "$(dirname "$0")/.." && pwd)
-for d in "$ROOT"/seeded/*/; do
-	"$ROOT/tools/seeded.sh" "$d" 2>&1 | grep "check " | sed "s|^|$(basename $d): |" | cut -c1-200
+cd "$ROOT"
+tmp=$(mktemp -d /var/tmp/seededall.XXXXXX)
+trap 'rm -rf "$tmp"' EXIT
+jobs=${JOBS:-3}
+run_one() {
+	d=$1; n=$(basename "$d")
+	extra=$(python3 -c "import json;print(' '.join(json.load(open('$d/meta.json')).get('also_check',[])))" 2>/dev/null)
+	prop=$(python3 -c "import json;print(json.load(open('$d/meta.json'))['property'])")
+	tools/seeded.sh "$d" $prop $extra > "$tmp/$n.out" 2>&1
+}
+n=0
+for d in seeded/C*/; do
+	run_one "$d" &
+	n=$((n+1))
+	if [ $((n % jobs)) -eq 0 ]; then wait; fi
+done
+wait
+for d in seeded/C*/; do
+	n=$(basename "$d")
+	sed "s|^|$n: |" "$tmp/$n.out" | cut -c1-260
 done
